@@ -494,6 +494,60 @@ theorem header_layout (s : Seg) :
   simp [encodeHeader, leBytes_length, this, magic, headerFixed, entrySize]
   omega
 
+/-! ### Allocation and free are inverse: nothing leaks, nothing else moves -/
+
+/-- Scan level: on a well-formed table the entry a successful scan inserted is the first (only)
+one starting at the returned offset, so freeing that offset gives back the original table. -/
+theorem allocScan_freeScan {sz dataEnd : Nat} (hsz : 0 < sz) :
+    ∀ {p : Nat} {t : Table} {o : Nat} {t' : Table},
+      WFfrom dataEnd p t → allocScan sz dataEnd p t = some (o, t') →
+      p ≤ o ∧ freeScan o t' = some t
+  | p, [], o, t', _, ha => by
+    simp only [allocScan] at ha
+    split at ha
+    · cases ha; exact ⟨Nat.le_refl _, by simp [freeScan]⟩
+    · cases ha
+  | p, e :: rest, o, t', h, ha => by
+    simp only [allocScan] at ha
+    split at ha
+    · cases ha; exact ⟨Nat.le_refl _, by simp [freeScan]⟩
+    · split at ha
+      · rename_i o2 t2 heq
+        cases ha
+        obtain ⟨h1, h2, h3⟩ := h
+        have ih := allocScan_freeScan hsz h3 heq
+        have hne : ¬ e.1 = o := by omega
+        refine ⟨by omega, ?_⟩
+        simp only [freeScan, hne, if_false, ih.2, Option.map]
+      · cases ha
+
+/-- **alloc_then_free_restores**: on every well-formed segment, freeing the offset a successful
+allocation returned yields exactly the segment as it was before that allocation — no entry is
+lost, duplicated or moved, for every table and size. -/
+theorem alloc_then_free_restores (s : Seg) (n : Int) (o : Nat) (s' : Seg)
+    (h : WF s) (ha : allocate s n = some (o, s')) : free s' o = some s := by
+  unfold allocate at ha
+  split at ha
+  · cases ha
+  · split at ha
+    · cases ha
+    · split at ha
+      · rename_i hn hlen o2 t2 heq
+        cases ha
+        have hpos : 0 < n.toNat := by omega
+        have := (allocScan_freeScan hpos h.1 heq).2
+        simp [free, this]
+      · cases ha
+
+/-- After an allocation is freed again, the same request is granted the same offset (the freed
+space is reusable at once). -/
+theorem alloc_free_alloc_same (s : Seg) (n : Int) (o : Nat) (s' s'' : Seg)
+    (h : WF s) (ha : allocate s n = some (o, s')) (hf : free s' o = some s'') :
+    allocate s'' n = some (o, s') := by
+  rw [alloc_then_free_restores s n o s' h ha] at hf
+  cases hf
+  exact ha
+
 /-! ### Non-vacuity: a concrete reachable, non-trivial state meets the hypotheses -/
 
 example : WF (([.alloc 8, .alloc 4, .free 65536, .alloc 2] : List Op).foldl step (create 16)) := by
@@ -503,5 +557,8 @@ example : (([.alloc 8, .alloc 4, .free 65536, .alloc 2] : List Op).foldl step (c
     = [(65536, 2), (65544, 4)] := by decide
 
 example : allocate (create 16) 17 = none ∧ (allocate (create 16) 16).isSome := by decide
+
+example : (allocate (step (create 16) (.alloc 8)) 4).bind (fun r => free r.2 r.1)
+    = some (step (create 16) (.alloc 8)) := by decide
 
 end Vgi.Props.C34
